@@ -532,6 +532,16 @@ def run_impl(tree, fmts, v, units=None, cls=None):
                 impl['xnode'], _ = _out(node_arg, dtcodec.py_to_json)
                 if 'ok' in impl['xnode']:
                     impl['xres'], _ = _out(cmd_result, dtcodec.py_to_json)
+            # ---- an error update: the cache entry shows the error, not a value (the `readerror` branch of CacheItem.__str__)
+            from frappy.errors import HardwareError
+            exc = HardwareError('sensor %r broken' % (tree['t'],))
+            stats_rerr = repr(exc)
+
+            def error_text():
+                rec.client.updateValue('m', 'par', None, 2.0, exc)
+                return str(rec.client.cache['m', 'par'])
+            impl['etext'], _ = _out(error_text, lambda s: {'bare': s})
+            impl['rerr'] = stats_rerr
     # ---- the library leaves: the fmt read-back table, and the laws tested on the leaves drawn ----
     table, seen = [], set()
     leafdts = {}
@@ -597,7 +607,7 @@ def eval_case(case):
     impl, table, libfail, stats = run_impl(case['tree'], case.get('fmts', {}), v, case.get('units'), case.get('cls'))
     LAST_STATS.clear()
     LAST_STATS.update(stats)
-    req = {'p': 'C02', 'k': 'case', 'dt': case['tree'], 'v': case['v'], 'fmt': table, 'impl': impl}
+    req = {'p': 'C02', 'k': 'case', 'dt': case['tree'], 'v': case['v'], 'fmt': table, 'impl': impl, 'rerr': impl.pop('rerr', None)}
     return req, impl, libfail
 
 
@@ -611,10 +621,10 @@ def canon_out(o):
 
 
 KEYS = ['exp', 'node', 'client', 'cdt', 'text', 'back', 'again', 'cval', 'ctext', 'cback', 'cagain', 'sent', 'cnode', 'vsent',
-        'vnode', 'xsent', 'xnode', 'xres']
+        'vnode', 'xsent', 'xnode', 'xres', 'etext']
 
 
-CLIENT_KEYS = ['client', 'cdt', 'cval', 'ctext', 'cback', 'cagain', 'sent', 'cnode', 'vsent', 'vnode', 'xsent', 'xnode', 'xres']
+CLIENT_KEYS = ['client', 'cdt', 'cval', 'ctext', 'cback', 'cagain', 'sent', 'cnode', 'vsent', 'vnode', 'xsent', 'xnode', 'xres', 'etext']
 
 
 def obs(d):
